@@ -3,6 +3,7 @@ package main
 import (
 	"fmt"
 	"go/types"
+	"golang.org/x/tools/go/ssa"
 	"strings"
 )
 
@@ -18,6 +19,17 @@ func c19R3(h H) {
 	if fn == nil {
 		return
 	}
+	bad, _, n, total := fcgiStatusTable(h, fn)
+	if total == 0 {
+		r.Unresolve("R3", bad)
+		return
+	}
+	r.Check(bad == "" && n == total, "R3", "fastcgi.(*FCGIClient).Request/status-table", fn.Pos(), "whatever Status a responder announces, the response either fails to parse or carries a code a response writer accepts", fmt.Sprintf("%d header blocks evaluated", n), bad)
+}
+
+// fcgiStatusTable evaluates FCGIClient.Request (E10) on header blocks with the given Status lines; bad is about the
+// status code (C19 R3), hdrBad about the header block of accepted responses (C13 R9).
+func fcgiStatusTable(h H, fn *ssa.Function) (string, string, int, int) {
 	hdrT, _ := types.Unalias(h.p.typeByName("net/http", "Header")).Underlying().(*types.Map)
 	mimeT := h.p.typeByName("net/textproto", "MIMEHeader")
 	var mimeMapT *types.Map
@@ -25,15 +37,14 @@ func c19R3(h H) {
 		mimeMapT, _ = types.Unalias(mimeT).Underlying().(*types.Map)
 	}
 	if hdrT == nil || mimeMapT == nil {
-		r.Unresolve("R3", "http.Header / textproto.MIMEHeader not found")
-		return
+		return "http.Header / textproto.MIMEHeader not found", "", 0, 0
 	}
 	type cs struct {
 		status string // "" = no Status line; "(empty)" = a Status line with an empty value
 		want   int64  // the code that must come out, 0: must fail (or, for no line, 200)
 	}
 	cases := []cs{{"", 200}, {"200 OK", 200}, {"404", 404}, {"100 Continue", 100}, {"999", 999}, {"42", 0}, {"0 x", 0}, {"-1", 0}, {"99", 0}, {"1000", 0}, {"99999999999999999999", 0}, {"abc", 0}, {" 200", 0}}
-	bad, n := "", 0
+	bad, hdrBad, n := "", "", 0
 	for _, c := range cases {
 		env := &absEnv{globals: map[string]*aobj{}, noFork: true, maxSteps: 200000}
 		mk := func(name string) aval {
@@ -85,6 +96,20 @@ func c19R3(h H) {
 		if p, ok := tp[0].(aptr); ok {
 			code = env.load(p.obj, joinPath(p.path, "StatusCode"))
 		}
+		if noErr && hdrBad == "" {
+			// the header block handed on: the application's fields, without the CGI status line
+			if p, ok := tp[0].(aptr); ok {
+				if m, ok := env.load(p.obj, joinPath(p.path, "Header")).(amap); ok {
+					if _, has := m.m.vals["s:Status"]; has {
+						hdrBad = desc + ": the response's header still holds the CGI status line — the handler copies every header to the client, who gets a `Status:` field the application never set"
+					} else if _, has := m.m.vals["s:Content-Type"]; !has {
+						hdrBad = desc + ": the application's Content-Type is missing from the response's header"
+					}
+				} else {
+					hdrBad = desc + ": the response's header is " + describeAval(env.load(p.obj, joinPath(p.path, "Header")))
+				}
+			}
+		}
 		if noErr {
 			v, isInt := code.(aint)
 			switch {
@@ -102,5 +127,5 @@ func c19R3(h H) {
 			break
 		}
 	}
-	r.Check(bad == "" && n == len(cases), "R3", "fastcgi.(*FCGIClient).Request/status-table", fn.Pos(), "whatever Status a responder announces, the response either fails to parse or carries a code a response writer accepts", fmt.Sprintf("%d header blocks evaluated", n), bad)
+	return bad, hdrBad, n, len(cases)
 }
